@@ -536,6 +536,7 @@ fn generate_tiny(rng: &mut Rng) -> (HistScenario, String) {
         col_pad: 0,
         line_pad: 0,
         dot_trivia: 0,
+        odd_places: false,
     };
     let uses = |ty: &str| {
         vec![gen::Member::Method {
